@@ -717,6 +717,40 @@ def gen_c06_multicall(tier, rng):
     return cases
 
 
+def _gen_bytes(n, seed):
+    return bytes((seed + 7 * i + 13 * (i >> 8)) % 256 for i in range(n))
+
+
+def _payload_arg(x):
+    if x == "-":
+        return b""
+    if x.startswith("gen:"):
+        _, n, sd = x.split(":")
+        return _gen_bytes(int(n), int(sd))
+    return bytes.fromhex(x)
+
+
+def _sent_payloads(ops):
+    """payload bytes of the packets handed to the encoder, in order, over all accepted encode calls of encoder e (None when the script
+    uses something this reader does not know)"""
+    store, sent = {}, []
+    for o in ops:
+        w = o.split(" ")
+        if w[0] == "pkt":
+            store[w[1]] = _payload_arg(w[12])
+        elif w[0] == "pk" and w[1] == "plassign":
+            store[w[2]] = _payload_arg(w[4])
+        elif w[0] == "pk" and w[1] in ("plsettype",):
+            pass
+        elif w[0] == "pk":
+            return None
+        elif w[0] == "enc" and w[1] == "e" and w[2] in ("encode", "encodep", "encodell"):
+            sent = [store[i] for i in w[5:] if i in store]
+        elif w[0] == "enc" and w[1] == "e" and w[2] == "encodeacc":
+            sent += [store[i] for i in w[5:] if i in store]
+    return sent
+
+
 def pred_c06(case, impl, model, ctx):
     """implementation only: every delivered packet is one the clean run delivered; every message whose
     frames arrived as a clean contiguous run was delivered at the end of that run"""
@@ -729,6 +763,13 @@ def pred_c06(case, impl, model, ctx):
     per_frame = [x.strip() for x in clean_line[4:].split("|")] if clean_line.startswith("sel ") else []
     clean_pk = [packets_of(x) or [] for x in per_frame]
     good = set(p for l in clean_pk for p in l)
+    # "byte-identical to one that was SENT": the reference run on the undisturbed frames must itself deliver exactly the payloads of the
+    # packets handed to the encoder (otherwise a broken encoder would define what counts as good)
+    sent = _sent_payloads(case.ops)
+    if sent is not None and case.meta.get("items") is not None and "version-byte-zero" not in case.tags:
+        got_clean = [p.split(":")[-1] for l in clean_pk for p in l]
+        if got_clean != [("-" if not b else b.hex()) for b in sent]:
+            return False
     items = case.meta["items"]
     got = [packets_of(x.strip()) or [] for x in fault_line[4:].split("|")] if fault_line.startswith("sel ") and items else []
     if len(got) != len(items):
